@@ -15,3 +15,8 @@ enum E {
 fn params(x: u8, x: u8) -> u8 {
     x
 }
+
+fn macro_errors_dup() {
+    println!("{} and {}",  undefined_dup_a,  undefined_dup_b);
+    let _arr = array![1,  undefined_dup_c];
+}
